@@ -70,3 +70,259 @@ Proof.
   split; [exact Hvalid|]. split; [exact Hpcm|].
   intros ops Hns Hops. rewrite <- Hpcm. apply FlacReaders.Props_C07.C07_sample_reader; assumption.
 Qed.
+
+(* ---------------- FlacChannelWriter -> FlacChannelReader ---------------- *)
+From FlacWriters Require Import Lists_proofs Writers_proofs.
+From FlacE2E Require Import ChannelE2E ChannelSuccess.
+
+Lemma nth_zip_app (c : nat) : forall (a b : list (list Z)), length a = length b ->
+  nth c (zip_app a b) [] = nth c a [] ++ nth c b [].
+Proof.
+  revert c. intros c a. revert c. induction a as [|x a IH]; intros c [|y b] Hl; try discriminate.
+  - destruct c; reflexivity.
+  - destruct c as [|c]; cbn [zip_app nth]; [reflexivity|]. apply IH. cbn in Hl. lia.
+Qed.
+
+Lemma nth_stack n c : forall blocks rest, Forall (fun b : list (list Z) => length b = n) blocks -> length rest = n ->
+  nth c (stack blocks rest) [] = concat (map (fun b => nth c b []) blocks) ++ nth c rest [].
+Proof.
+  induction blocks as [|b bl IH]; intros rest Fb Lr; cbn [stack fold_right map concat]; [reflexivity|].
+  fold (stack bl rest). apply Forall_cons_iff in Fb. destruct Fb as [Lb Fb].
+  rewrite nth_zip_app by (rewrite (stack_length n bl rest Fb Lr); exact Lb).
+  rewrite (IH rest Fb Lr), app_assoc. reflexivity.
+Qed.
+
+Theorem written_channels_are_read : forall o L md5, (forall l, length (md5 l) = 16%nat) ->
+  forall p rate bps wo ch total w chunks e rp,
+  options_wf wo ->
+  channel_new p [] wo rate bps ch total = Ok w ->
+  Forall (chunk_ok (N.to_nat ch)) chunks ->
+  let all := cconcat (N.to_nat ch) chunks in
+  forallb (FlacCodec.Wf.fits bps) (concat all) = true ->
+  let m := length (hd [] all) in
+  (1 <= m)%nat -> N.of_nat m < 2 ^ 36 ->
+  match total with Some T => T = N.of_nat m | None => True end ->
+  exists f blocks,
+    channel_run (encB o L rate bps) md5 p w chunks = Ok f /\
+    FlacCodec.Stream.dec_stream (f_stream f) =
+      Some (conv_si (f_si f), map FlacCodec.Stream.interleave_frame blocks, FlacCodec.Stream.EndEof) /\
+    let F := file_of_blocks blocks ch bps (Some (FlacCodec.Enc_proofs.blocks_samples blocks)) e rp in
+    RS.valid_file F /\
+    forall c, (c < N.to_nat ch)%nat ->
+      RS.chan_pcm F c = nth c all [] /\
+      forall ops, RS.no_cseek ops -> Forall RS.cop_ok (snd (FlacReaders.Seek.chan_run F ops)) ->
+        let atr := map (RS.abs_c F c) (snd (FlacReaders.Seek.chan_run F ops)) in
+        Forall (RS.cur_ok (nth c all [])) atr /\ RS.chained 0 atr (RS.cpos (fst (FlacReaders.Seek.chan_run F ops))) /\
+        RS.exactly_once (nth c all []) atr /\ Forall (RS.chan_shape F) (snd (FlacReaders.Seek.chan_run F ops)).
+Proof.
+  intros o L md5 Hmd p rate bps wo ch total w chunks e rp Hwf Hnew Hchunks all Hfit m Hm Hlen Htot.
+  assert (Hr : rate < 2 ^ 20 /\ 1 <= bps /\ bps <= 32 /\ 1 <= ch /\ ch <= 8).
+  { pose proof Hnew as H. unfold channel_new in H. apply bind_ok in H. destruct H as (bps' & Hb & H).
+    apply bind_ok in H. destruct H as (t & _ & H). apply bind_ok in H. destruct H as (e0 & He0 & _).
+    unfold signed_bit_count_32 in Hb. destruct ((1 <=? bps) && (bps <=? 32)) eqn:Eb; [|discriminate].
+    apply andb_prop in Eb. destruct Eb as [B1 B2]. apply N.leb_le in B1, B2. injection Hb as <-.
+    unfold encoder_new in He0. apply bind_ok in He0. destruct He0 as ([] & Hv & _). unfold encoder_new_validate in Hv.
+    destruct (N.ltb_spec rate 1048576); [|discriminate]. destruct ((1 <=? ch) && (ch <=? 8)) eqn:Ec; [|discriminate].
+    apply andb_prop in Ec. destruct Ec as [C1 C2]. apply N.leb_le in C1, C2. change (2 ^ 20) with 1048576. auto. }
+  destruct Hr as (R & B1 & B2 & C1 & C2).
+  destruct (channel_run_succeeds o L md5 Hmd p rate bps ch R B1 B2 C1 C2 wo total w chunks Hwf Hnew Hchunks Hfit Hm Hlen Htot) as [f Hrun].
+  destruct (e2e_channel_pcm o L md5 Hmd p rate bps wo ch total w chunks f Hwf Hnew Hchunks Hrun Hfit Hlen)
+    as (blocks & Hdec & Hst & Hok & Hshape & Htotal & Hsc & Hlt).
+  exists f, blocks. split; [exact Hrun|]. split; [exact Hdec|]. cbv zeta.
+  fold all in Hst.
+  assert (Fbl : Forall (fun b : list (list Z) => length b = N.to_nat ch) blocks).
+  { eapply Forall_impl; [|exact Hok]. intros b (Hcb & _ & _ & _ & Hscb & _). rewrite Hsc in Hscb. lia. }
+  assert (Hpos : 1 <= FlacCodec.Enc_proofs.blocks_samples blocks).
+  { destruct blocks as [|b bl].
+    - exfalso. cbn [stack fold_right] in Hst. unfold m in Hm. rewrite <- Hst in Hm.
+      destruct (N.to_nat ch) as [|k] eqn:Ek; [lia|]. cbn in Hm. lia.
+    - apply Forall_cons_iff in Hok. destruct Hok as [(Hchb & _ & _ & _ & _ & n & Hn1 & _ & _ & Hall) _].
+      unfold FlacCodec.Enc_proofs.blocks_samples. cbn [fold_right].
+      destruct b as [|c0 b']; [cbn in Hchb; lia|].
+      apply Forall_cons_iff in Hall. destruct Hall as [[A _] _]. cbn [FlacCodec.Enc.block_len]. lia. }
+  rewrite <- Hsc.
+  pose proof (blocks_valid_file (conv_si (f_si f)) bps blocks e rp Hok Hshape Htotal Hpos B1 B2 Hlt) as Hvalid.
+  split; [exact Hvalid|]. intros c Hc.
+  set (F := file_of_blocks blocks (FlacCodec.Ast.si_channels (conv_si (f_si f))) bps (Some (FlacCodec.Enc_proofs.blocks_samples blocks)) e rp) in *.
+  assert (Hpcm : RS.chan_pcm F c = nth c all []).
+  { unfold RS.chan_pcm, RS.cdata, F. cbn [file_of_blocks R.f_slots]. rewrite slot_frames.
+    rewrite <- Hst, (nth_stack (N.to_nat ch) c blocks _ Fbl (repeat_length _ _)).
+    rewrite nth_repeat, app_nil_r. reflexivity. }
+  split; [exact Hpcm|]. intros ops Hns Hops. rewrite <- Hpcm.
+  apply FlacReaders.Props_C07.C07_channel_reader; assumption.
+Qed.
+
+(* ---------------- FlacByteWriter -> FlacByteReader (same byte order) ---------------- *)
+From FlacWriters Require Import Bytes_proofs.
+From FlacE2E Require Import ByteE2E ByteSuccess.
+
+Definition conv_endian (en : Writers.endian) : Ser.endian :=
+  match en with Writers.LE => Ser.LE | Writers.BE => Ser.BE end.
+
+(* two's complement written back: the bytes a sample was read from *)
+Lemma le_bytes_le_value : forall c, Forall byte_ok c ->
+  RS.le_bytes (length c) (Z.to_N (le_value c)) = c /\ (0 <= le_value c < 2 ^ (8 * Z.of_nat (length c)))%Z.
+Proof.
+  induction c as [|b r IH]; intros F; [cbn; split; [reflexivity|lia]|].
+  apply Forall_cons_iff in F. destruct F as [Hb Fr]. destruct (IH Fr) as [E R]. unfold byte_ok in Hb.
+  cbn [le_value length RS.le_bytes].
+  assert (Ev : Z.to_N (Z.of_N b + 256 * le_value r) = b + 256 * Z.to_N (le_value r)) by lia.
+  rewrite Ev.
+  assert (M : (b + 256 * Z.to_N (le_value r)) mod 256 = b).
+  { rewrite (N.mul_comm 256), N.mod_add by lia. apply N.mod_small. exact Hb. }
+  assert (D : (b + 256 * Z.to_N (le_value r)) / 256 = Z.to_N (le_value r)).
+  { rewrite N.add_comm, (N.mul_comm 256), N.div_add_l by lia. rewrite (N.div_small b 256) by exact Hb. lia. }
+  rewrite M, D, E. split; [reflexivity|].
+  replace (8 * Z.of_nat (S (length r)))%Z with (8 + 8 * Z.of_nat (length r))%Z by lia.
+  rewrite Z.pow_add_r by lia. change (2 ^ 8)%Z with 256%Z. lia.
+Qed.
+
+Lemma twos_complement_read_back en (c : list N) : Forall byte_ok c -> (1 <= length c)%nat ->
+  RS.twos_complement (conv_endian en) (N.of_nat (length c))
+    (bytes_to_int_le (match en with Writers.LE => c | Writers.BE => rev c end)) = c.
+Proof.
+  intros F Hl.
+  assert (G : forall d, Forall byte_ok d -> length d = length c ->
+     RS.le_bytes (length c) (Z.to_N (bytes_to_int_le d mod 2 ^ (8 * Z.of_N (N.of_nat (length c))))) = d).
+  { intros d Fd Ld. destruct (le_bytes_le_value d Fd) as [E R]. rewrite Ld in *.
+    rewrite nat_N_Z.
+    assert (Em : (bytes_to_int_le d mod 2 ^ (8 * Z.of_nat (length c)) = le_value d)%Z).
+    { unfold bytes_to_int_le. rewrite Ld. set (w := (2 ^ (8 * Z.of_nat (length c)))%Z) in *. cbv zeta.
+      destruct (2 * le_value d <? w)%Z.
+      - apply Z.mod_small. exact R.
+      - replace (le_value d - w)%Z with (le_value d + (-1) * w)%Z by lia. rewrite Z.mod_add by lia. apply Z.mod_small. exact R. }
+    rewrite Em. exact E. }
+  unfold RS.twos_complement. rewrite Nat2N.id. destruct en; cbn [conv_endian Ser.order].
+  - apply G; [exact F|reflexivity].
+  - rewrite (G (rev c)); [apply rev_involutive|apply Forall_rev; exact F|apply rev_length].
+Qed.
+
+Lemma fits_conv bps z : FlacCodec.Wf.fits bps z = true -> RS.fits (Z.of_N bps) z.
+Proof.
+  unfold FlacCodec.Wf.fits, RS.fits. intros H. apply andb_prop in H. destruct H as [H H3]. apply andb_prop in H. destruct H as [_ H2].
+  apply Z.leb_le in H2. apply Z.ltb_lt in H3. lia.
+Qed.
+
+Lemma forallb_firstn {A} (f : A -> bool) k : forall l, forallb f l = true -> forallb f (firstn k l) = true.
+Proof.
+  induction k as [|k IH]; intros [|x l] H; cbn [firstn forallb] in *; try reflexivity.
+  apply andb_prop in H. destruct H as [-> H]. cbn [andb]. apply IH. exact H.
+Qed.
+
+Lemma In_firstn_in {A} k : forall (l : list A) x, In x (firstn k l) -> In x l.
+Proof.
+  induction k as [|k IH]; intros [|y l] x H; cbn [firstn] in H; try contradiction.
+  destruct H as [<-|H]; [left; reflexivity|right; apply IH; exact H].
+Qed.
+
+(* serialising the samples a run of whole samples spells gives the run back *)
+Lemma ser_decode_bytes en bps (x : list N) k : 1 <= bps <= 32 ->
+  let nb := Ser.bytes_per_sample bps in
+  length x = (N.to_nat nb * k)%nat -> Forall byte_ok x ->
+  forallb (FlacCodec.Wf.fits bps) (decode_bytes en (N.to_nat nb) x) = true ->
+  Ser.ser (conv_endian en) nb (decode_bytes en (N.to_nat nb) x) = x.
+Proof.
+  intros Hb nb Lx Fx Hfit.
+  assert (Hnb : 1 <= nb <= 4).
+  { unfold nb, Ser.bytes_per_sample. split; [apply N.div_le_lower_bound; lia|]. apply N.lt_succ_r. apply N.div_lt_upper_bound; lia. }
+  unfold nb at 1. rewrite FlacReaders.Props_C07.C07_ser_twos_complement; [|exact Hb|].
+  2:{ apply Forall_forall. intros z Hz. apply fits_conv. rewrite forallb_forall in Hfit. apply Hfit. exact Hz. }
+  fold nb. unfold decode_bytes.
+  destruct (drain (N.to_nat nb) x) as [cs r] eqn:D. cbn [fst].
+  assert (Hn : (0 < N.to_nat nb)%nat) by lia.
+  pose proof (drain_spec _ Hn x cs r D) as (Ex & Fcs & Lr). pose proof (drain_length _ Hn x cs r D) as Ld.
+  assert (Hr : r = []).
+  { assert (length r = 0)%nat; [|destruct r; [reflexivity|discriminate]].
+    rewrite Lx in Ld. set (n := N.to_nat nb) in *.
+    destruct (Nat.lt_trichotomy (length cs) k) as [Hl|[E|Hg]].
+    - assert (n * (length cs + 1) <= n * k)%nat by (apply Nat.mul_le_mono_l; lia). lia.
+    - subst k. lia.
+    - assert (n * (k + 1) <= n * length cs)%nat by (apply Nat.mul_le_mono_l; lia). lia. }
+  subst r. rewrite app_nil_r in Ex. rewrite Ex. rewrite map_map. f_equal.
+  rewrite <- (map_id cs) at 2. apply map_ext_in. intros c Hc.
+  rewrite Forall_forall in Fcs. pose proof (Fcs c Hc) as Lc.
+  replace nb with (N.of_nat (length c)) by lia. apply twos_complement_read_back; [|lia].
+  rewrite Ex in Fx. apply Forall_forall. intros b Hbn. rewrite Forall_forall in Fx. apply Fx. apply in_concat. exists c. auto.
+Qed.
+
+Lemma firstn_decode_bytes en n (buf : list N) k : (0 < n)%nat -> (n * k <= length buf)%nat ->
+  firstn k (decode_bytes en n buf) = decode_bytes en n (firstn (n * k) buf).
+Proof.
+  intros Hn Hk. rewrite <- (firstn_skipn (n * k) buf) at 1.
+  rewrite (decode_bytes_app en n (firstn (n * k) buf) (skipn (n * k) buf) k Hn) by (rewrite firstn_length; lia).
+  assert (Ll : length (decode_bytes en n (firstn (n * k) buf)) = k).
+  { rewrite decode_bytes_length, firstn_length by exact Hn. rewrite Nat.min_l by exact Hk. rewrite Nat.mul_comm. apply Nat.div_mul. lia. }
+  rewrite <- Ll at 1. rewrite firstn_app, Nat.sub_diag, firstn_all. cbn [firstn]. apply app_nil_r.
+Qed.
+
+Theorem written_bytes_are_read : forall o L md5, (forall l, length (md5 l) = 16%nat) ->
+  forall p rate bps en wo ch total w chunks rp,
+  options_wf wo ->
+  byte_new p en [] wo rate bps ch total = Ok w ->
+  Forall byte_ok (concat chunks) ->
+  let nb := bytes_per_sample_of bps in
+  let samples := decode_bytes en (N.to_nat nb) (concat chunks) in
+  forallb (FlacCodec.Wf.fits bps) samples = true ->
+  let W := N.of_nat (length samples) / ch in
+  let written := firstn (N.to_nat nb * (N.to_nat ch * (length samples / N.to_nat ch))) (concat chunks) in
+  1 <= W -> N.of_nat (length samples) < 2 ^ 36 ->
+  match total with Some T => T = nb * ch * W | None => True end ->
+  exists f blocks,
+    byte_run (encB o L rate bps) md5 p w chunks = Ok f /\
+    FlacCodec.Stream.dec_stream (f_stream f) =
+      Some (conv_si (f_si f), map FlacCodec.Stream.interleave_frame blocks, FlacCodec.Stream.EndEof) /\
+    let F := file_of_blocks blocks ch bps (Some (FlacCodec.Enc_proofs.blocks_samples blocks)) (conv_endian en) rp in
+    RS.valid_file F /\ RS.pcm_bytes F = written /\
+    forall ops, RS.no_bseek ops -> Forall RS.bop_ok (snd (FlacReaders.Seek.byte_run F ops)) ->
+      let atr := map (RS.abs_b F) (snd (FlacReaders.Seek.byte_run F ops)) in
+      Forall (RS.cur_ok written) atr /\ RS.chained 0 atr (RS.bpos F (fst (FlacReaders.Seek.byte_run F ops))) /\
+      RS.exactly_once written atr.
+Proof.
+  intros o L md5 Hmd p rate bps en wo ch total w chunks rp Hwf Hnew Hbytes nb samples Hfit W written HW Hlen Htot.
+  assert (Hr : rate < 2 ^ 20 /\ 1 <= bps /\ bps <= 32 /\ 1 <= ch /\ ch <= 8).
+  { pose proof Hnew as H. unfold byte_new in H. apply bind_ok in H. destruct H as (bps' & Hb & H).
+    apply bind_ok in H. destruct H as (t & _ & H). apply bind_ok in H. destruct H as (e0 & He0 & _).
+    unfold signed_bit_count_32 in Hb. destruct ((1 <=? bps) && (bps <=? 32)) eqn:Eb; [|discriminate].
+    apply andb_prop in Eb. destruct Eb as [B1 B2]. apply N.leb_le in B1, B2. injection Hb as <-.
+    unfold encoder_new in He0. apply bind_ok in He0. destruct He0 as ([] & Hv & _). unfold encoder_new_validate in Hv.
+    destruct (N.ltb_spec rate 1048576); [|discriminate]. destruct ((1 <=? ch) && (ch <=? 8)) eqn:Ec; [|discriminate].
+    apply andb_prop in Ec. destruct Ec as [C1 C2]. apply N.leb_le in C1, C2. change (2 ^ 20) with 1048576. auto. }
+  destruct Hr as (R & B1 & B2 & C1 & C2).
+  destruct (byte_run_succeeds o L md5 Hmd p rate bps ch R B1 B2 C1 C2 en wo total w chunks Hwf Hnew Hbytes Hfit HW Hlen Htot) as [f Hrun].
+  destruct (e2e_byte_pcm o L md5 Hmd p rate bps en wo ch total w chunks f Hwf Hnew Hrun Hbytes Hfit Hlen)
+    as (blocks & Hdec & Hcat & Hok & Hshape & Htotal & Hsc & Hlt).
+  exists f, blocks. split; [exact Hrun|]. split; [exact Hdec|]. cbv zeta.
+  fold nb samples in Hcat.
+  set (c := N.to_nat ch) in *. set (n := N.to_nat nb) in *. set (q := (length samples / c)%nat) in *.
+  assert (Hnb : 1 <= nb <= 4).
+  { unfold nb, bytes_per_sample_of. split; [apply N.div_le_lower_bound; lia|]. apply N.lt_succ_r. apply N.div_lt_upper_bound; lia. }
+  assert (Hq : (1 <= q)%nat).
+  { assert (E : N.of_nat q = W) by (unfold q, W, c; rewrite Nat2N.inj_div, N2Nat.id; reflexivity). lia. }
+  assert (Hcq : (c * q <= length samples)%nat) by (apply Nat.mul_div_le; unfold c; lia).
+  assert (Hpos : 1 <= FlacCodec.Enc_proofs.blocks_samples blocks).
+  { destruct blocks as [|b bl].
+    - exfalso. cbn [map concat] in Hcat. assert (Hl : length (firstn (c * q) samples) = 0%nat) by (rewrite <- Hcat; reflexivity).
+      rewrite firstn_length in Hl. assert (1 <= c)%nat by (unfold c; lia). nia.
+    - apply Forall_cons_iff in Hok. destruct Hok as [(Hchb & _ & _ & _ & _ & n0 & Hn1 & _ & _ & Hall) _].
+      unfold FlacCodec.Enc_proofs.blocks_samples. cbn [fold_right].
+      destruct b as [|c0 b']; [cbn in Hchb; lia|].
+      apply Forall_cons_iff in Hall. destruct Hall as [[A _] _]. cbn [FlacCodec.Enc.block_len]. lia. }
+  rewrite <- Hsc.
+  pose proof (blocks_valid_file (conv_si (f_si f)) bps blocks (conv_endian en) rp Hok Hshape Htotal Hpos B1 B2 Hlt) as Hvalid.
+  set (F := file_of_blocks blocks (FlacCodec.Ast.si_channels (conv_si (f_si f))) bps (Some (FlacCodec.Enc_proofs.blocks_samples blocks)) (conv_endian en) rp) in *.
+  assert (Hpcm : RS.pcm_bytes F = written).
+  { rewrite FlacReaders.Props_C07.C07_bytes_vs_samples. unfold F at 3. rewrite (blocks_pcm (conv_si (f_si f)) bps blocks _ _ _ rp Hok), Hcat.
+    unfold F. cbn [file_of_blocks R.f_endian R.f_bps].
+    assert (Hls : length samples = (length (concat chunks) / n)%nat) by (unfold samples; apply decode_bytes_length; unfold n; lia).
+    assert (Hnk : (n * (c * q) <= length (concat chunks))%nat).
+    { pose proof (Nat.mul_div_le (length (concat chunks)) n ltac:(unfold n; lia)) as H. rewrite <- Hls in H. nia. }
+    unfold samples. rewrite (firstn_decode_bytes en n (concat chunks) (c * q)) by (unfold n; lia || exact Hnk).
+    change (Ser.bytes_per_sample bps) with nb. unfold n.
+    apply (ser_decode_bytes en bps _ (c * q) (conj B1 B2)).
+    - change (Ser.bytes_per_sample bps) with nb. rewrite firstn_length. fold n. lia.
+    - apply Forall_forall. intros b Hb. rewrite Forall_forall in Hbytes. apply Hbytes. eapply In_firstn_in. exact Hb.
+    - change (Ser.bytes_per_sample bps) with nb. fold n. rewrite <- (firstn_decode_bytes en n (concat chunks) (c * q)) by (unfold n; lia || exact Hnk).
+      apply forallb_firstn. exact Hfit. }
+  split; [exact Hvalid|]. split; [exact Hpcm|].
+  intros ops Hns Hops. rewrite <- Hpcm. apply FlacReaders.Props_C07.C07_byte_reader; assumption.
+Qed.
